@@ -5,6 +5,7 @@ import (
 	"github.com/tendermint/fundraising/x/fundraising/types"
 
 	"verif/harness/env"
+	"verif/harness/model"
 	"verif/harness/nd"
 )
 
@@ -37,6 +38,8 @@ func H_C16_Settle() {
 	// final settlement: no extended rounds left, end time reached
 	nd.Assume(st.batchA.MaxExtendedRound+1 == uint32(nEnd))
 	nd.Assume(!st.base.EndTimes[nEnd-1].After(now))
+	plan := &model.Listener{Name: "plan"}
+	e.SetHooks(types.NewMultiFundraisingHooks(plan))
 	pre := snapshot(e, trackedAccounts(0))
 	err := e.K.BeginBlocker(e.Ctx)
 	nd.Assert("C16.settlement-succeeds", err == nil)
@@ -64,6 +67,27 @@ func H_C16_Settle() {
 		}
 	}
 	nd.Assert("C16.published-price-zero-iff-nothing-sold", nd.Iff(published.IsZero(), sold.IsZero()))
+	// ---- C02: the transfers of a batch settlement are exactly the plan (allocation / refund maps) ----
+	nd.Assert("C02.batch-plan-announced", plan.Alloc != nil && plan.Refund != nil)
+	if plan.Alloc != nil && plan.Refund != nil && len(bids) == nBids {
+		totalAlloc, totalRefund := nd.ZOf(0), nd.ZOf(0)
+		for i := range bids {
+			u := addr(user(i + 1))
+			al, ok := plan.Alloc[user(i+1)]
+			rf, ok2 := plan.Refund[user(i+1)]
+			nd.Assert("C02.batch-plan-covers-every-bidder", ok && ok2)
+			if ok && ok2 {
+				nd.Assert("C02.batch-bidder-receives-allocation", post.get(u, denomSell).Sub(pre.get(u, denomSell)).EQ(nd.ZInt(al)))
+				nd.Assert("C02.batch-bidder-receives-refund", post.get(u, denomPay).Sub(pre.get(u, denomPay)).EQ(nd.ZInt(rf)))
+				totalAlloc, totalRefund = totalAlloc.Add(nd.ZInt(al)), totalRefund.Add(nd.ZInt(rf))
+			}
+		}
+		au := addr(st.base.Auctioneer)
+		nd.Assert("C02.batch-auctioneer-gets-unsold-coins", post.get(au, denomSell).Sub(pre.get(au, denomSell)).EQ(pre.get(st.sellingAddr(), denomSell).Sub(totalAlloc)))
+		nd.Assert("C02.batch-auctioneer-gets-all-payments", post.get(au, denomPay).Sub(pre.get(au, denomPay)).EQ(pre.get(st.payingAddr(), denomPay).Sub(totalRefund)))
+		nd.Assert("C02.batch-escrows-empty", nd.And(post.get(st.sellingAddr(), denomSell).IsZero(), post.get(st.payingAddr(), denomPay).IsZero()))
+		nd.Assert("C01.batch-escrows-empty-after-settlement", nd.And(post.get(st.sellingAddr(), denomSell).IsZero(), post.get(st.payingAddr(), denomPay).IsZero()))
+	}
 	nd.Observe("published", a.MatchedPrice)
 	if nd.Symbolic() || true {
 		nd.Cover("settled")
